@@ -477,6 +477,17 @@ impl Dy {
             None
         }
     }
+    /// For an integer value: is it odd?
+    pub fn is_odd_integer(&self) -> bool {
+        if !self.is_integer() || self.m.is_zero() {
+            return false;
+        }
+        if self.e > 0 {
+            false
+        } else {
+            self.m.bit((-self.e) as u64)
+        }
+    }
     /// Integer value as u128 if it is a non-negative integer that fits.
     pub fn to_u128(&self) -> Option<u128> {
         if !self.is_integer() || (self.neg && !self.m.is_zero()) {
